@@ -692,7 +692,11 @@ func (x *Exec) safeEval(env *SpecEnv, c Clause, pos token.Pos) (t Term) {
 			panic(r)
 		}
 	}()
-	return env.evalBool(c.Expr)
+	g, facts := env.evalWithFacts(c.Expr)
+	for _, f := range facts {
+		env.st.assume(f)
+	}
+	return g
 }
 
 // crossModeOK: a contract proved in one integer mode may be used from the
